@@ -9,6 +9,7 @@ import (
 	"encoding/json"
 	"encoding/xml"
 	"fmt"
+	"goa.design/goa/v3/codegen"
 	goahttp "goa.design/goa/v3/http"
 	"net/http"
 	"sort"
@@ -217,6 +218,12 @@ func checkMethod(t *testing.T, b *rt.Built, s *m.Service, meth *m.Method) bool {
 // errorFor builds the stub error for a declared error.
 func errorFor(t *rapid.T, d *m.Design, de declaredError, msg string) harness.ErrorSpec {
 	e := de.Def
+	if e.Type == nil && oneDeclaration(d, e) && rapid.Bool().Draw(t, "made") {
+		// the way service code is documented to build a declared error: the
+		// generated constructor sets the name and the flags of the design
+		return harness.ErrorSpec{Kind: "made", Maker: "Make" + codegen.Goify(e.Name, true), Name: e.Name, Message: msg,
+			Timeout: e.Timeout, Temporary: e.Temporary, Fault: e.Fault}
+	}
 	if e.Type == nil {
 		return harness.ErrorSpec{Kind: "service", Name: e.Name, ID: idGen.Draw(t, "id"), Message: msg,
 			Timeout: rapid.Bool().Draw(t, "to"), Temporary: rapid.Bool().Draw(t, "tmp"), Fault: rapid.Bool().Draw(t, "fault")}
@@ -229,6 +236,37 @@ func errorFor(t *rapid.T, d *m.Design, de declaredError, msg string) harness.Err
 	}
 	// primitive error type: goa names the Go type after the error
 	return harness.ErrorSpec{Kind: "custom", Name: e.Name, Type: goName(e.Name), Value: value.Str(msg)}
+}
+
+// oneDeclaration: the error name is declared with the same type and the same
+// qualifiers everywhere in the design (API, services, methods). One
+// constructor is generated per service and name; which of several differing
+// declarations it follows is not documented, so only unanimous names are
+// built through it.
+func oneDeclaration(d *m.Design, e *m.ErrorDef) bool {
+	same := func(o *m.ErrorDef) bool {
+		return o.Name != e.Name || ((o.Type == nil) == (e.Type == nil) && o.Timeout == e.Timeout && o.Temporary == e.Temporary && o.Fault == e.Fault)
+	}
+	for _, o := range d.API.Errors {
+		if !same(o) {
+			return false
+		}
+	}
+	for _, s := range d.Services {
+		for _, o := range s.Errors {
+			if !same(o) {
+				return false
+			}
+		}
+		for _, mt := range s.Methods {
+			for _, o := range mt.Errors {
+				if !same(o) {
+					return false
+				}
+			}
+		}
+	}
+	return true
 }
 
 // goName approximates goa's Goify for type names made of plain identifiers.
@@ -267,6 +305,12 @@ var sentinelNames = func() []string {
 }()
 
 func record(c *caseRec, decl []declaredError) {
+	if c.Err.Kind == "made" {
+		stats.Class("declared-built-by-generated-constructor")
+		if (c.Err.Timeout && c.Err.Temporary) || (c.Err.Fault && (c.Err.Timeout || c.Err.Temporary)) {
+			stats.Class("declared-built-by-generated-constructor:several-qualifiers")
+		}
+	}
 	if c.Err.Sentinel != "" {
 		stats.Class("plain-error-is-sentinel:" + c.Err.Sentinel)
 	}
@@ -445,7 +489,7 @@ func runCase(b *rt.Built, s *m.Service, meth *m.Method, c *caseRec) string {
 		if !ce.IsService {
 			return fmt.Sprintf("declared error %q arrives as %s, want *goa.ServiceError", de.Def.Name, ce.GoType)
 		}
-		if ce.ID != c.Err.ID || ce.Message != c.Err.Message || ce.Timeout != c.Err.Timeout || ce.Temporary != c.Err.Temporary || ce.Fault != c.Err.Fault {
+		if (c.Err.Kind != "made" && ce.ID != c.Err.ID) || (c.Err.Kind == "made" && ce.ID == "") || ce.Message != c.Err.Message || ce.Timeout != c.Err.Timeout || ce.Temporary != c.Err.Temporary || ce.Fault != c.Err.Fault {
 			return fmt.Sprintf("declared error %q: client sees id=%q message=%q timeout=%v temporary=%v fault=%v, the method returned id=%q message=%q timeout=%v temporary=%v fault=%v",
 				de.Def.Name, ce.ID, ce.Message, ce.Timeout, ce.Temporary, ce.Fault, c.Err.ID, c.Err.Message, c.Err.Timeout, c.Err.Temporary, c.Err.Fault)
 		}
